@@ -31,7 +31,8 @@ const staleCacheKey = "tagvalue-cache-not-invalidated-on-series-delete"
 // merely starts with the same bytes ("m,host=a" is a prefix of "m,host=a,region=y" and of
 // "m,host=ab"). If such a series still has values in the cache, the emptied series is treated as
 // "has cache values" and stays in the shard's index (and series file) without any data.
-const prefixKeptKey = "delete-keeps-series-whose-key-prefixes-a-cached-series"
+// Same root cause as the finding the C17 package registered under this key.
+const prefixKeptKey = "delete-index-prefix-series-kept"
 
 func knownDataset() *dataset {
 	fl := func(v float64) map[string]model.Val { return map[string]model.Val{"ff": {K: model.Float, F: v}} }
@@ -118,7 +119,7 @@ func TestKnown_tagvalue_cache_not_invalidated_on_series_delete(t *testing.T) {
 		caseJSON{Dataset: d, Query: q})
 }
 
-func TestKnown_delete_keeps_series_whose_key_prefixes_a_cached_series(t *testing.T) {
+func TestKnown_delete_index_prefix_series_kept(t *testing.T) {
 	fl := func(v float64) map[string]model.Val { return map[string]model.Val{"ff": {K: model.Float, F: v}} }
 	d := &dataset{T0: 0, NShards: 2, Series: []string{"m2,host=a", "m2,host=a,region=y"}}
 	d.Ops = []op{
@@ -175,7 +176,7 @@ func TestKnown_delete_keeps_series_whose_key_prefixes_a_cached_series(t *testing
 	if len(got2) != 0 && !(len(got2) == 1 && got2[0][1] == "\x00empty") {
 		reproduced = false // something else
 	}
-	rec.Known(t, "TestKnown_delete_keeps_series_whose_key_prefixes_a_cached_series", prefixKeptKey, reproduced,
+	rec.Known(t, "TestKnown_delete_index_prefix_series_kept", prefixKeptKey, reproduced,
 		fmt.Sprintf("write m2,host=a@10 and m2,host=a,region=y@20,40 (cache), DELETE WHERE time <= 30: series m2,host=a has no points left but stays in the index, so Store.TagKeys with an authorizer hiding region=y series returns %s (host is carried only by the deleted series); with the survivor named m2,host=b,region=y the same call returns %s", raw, raw2),
 		caseJSON{Dataset: d, Applied: len(d.Ops), Query: q})
 }
